@@ -34,10 +34,18 @@ Holds(p, s) ==
     [] p = "avg>=2"            -> u # <<>> /\ Sum(u) >= 2 * Len(u)
     [] p = "count>=3|max>=3"   -> Len(s) >= 3 \/ (u # <<>> /\ MaxOf(u) >= 3)
     [] p = "count>=2&min<0"    -> Len(s) >= 2 /\ u # <<>> /\ MinOf(u) < 0
+    [] p = "max>=3|count>=3"   -> (u # <<>> /\ MaxOf(u) >= 3) \/ Len(s) >= 3          \* a column aggregate BEFORE count(*)
+    [] p = "min<0&count>=2"    -> u # <<>> /\ MinOf(u) < 0 /\ Len(s) >= 2
+    [] p = "sum>3|count>=3"    -> (u # <<>> /\ Sum(u) > 3) \/ Len(s) >= 3
     [] p = "count>=3|max>=3&min<0" -> Len(s) >= 3 \/ (u # <<>> /\ MaxOf(u) >= 3 /\ MinOf(u) < 0)   \* AND binds tighter than OR
 
 Init == acc = [g \in Groups |-> <<>>] /\ out = <<>> /\ n = 0 /\ hist = <<>>
+\* predicates whose LEFT operand of OR is a column aggregate: while that aggregate is NULL the engine's evaluation of the whole
+\* predicate fails (recorded finding TriggerOrPoisonedByNullAggregate, pinned); the behaviours generated for replay (Emit) start
+\* every accumulation of a group with a non-NULL value
+LeftNullable == {"max>=3|count>=3", "sum>3|count>=3"}
 Row(g, v) ==
+  /\ (Emit /\ Pred \in LeftNullable /\ acc[g] = <<>>) => v # Nul
   /\ n < MaxRows /\ n' = n + 1
   /\ hist' = Append(hist, [g |-> g, v |-> v])
   /\ LET s == Append(acc[g], v) IN
@@ -55,5 +63,7 @@ Conservation == \A g \in Groups :
   LET fired == SelectSeq(out, LAMBDA o : o.g = g) IN
   Len(RowsOf(g)) = Len(acc[g]) + Sum([i \in 1..Len(fired) |-> Len(fired[i].vals)])
 NoFireWhileFalse == \A g \in Groups : \A k \in 1..Len(acc[g]) : ~Holds(Pred, SubSeq(acc[g], 1, k))
+\* predicates whose LEFT operand of OR is a column aggregate: while that aggregate is NULL the engine's evaluation of the whole
+\* predicate fails (recorded finding TriggerOrPoisonedByNullAggregate, pinned); generated behaviours give every group a non-NULL first value
 EmitScenario == (Emit /\ n = MaxRows) => PrintT(<<"SCEN", ToJson(hist)>>)
 =============================================================================
